@@ -277,6 +277,10 @@ def run(chk):
         "AllocateInd.IndInv (TypeOK, one grant per finished request, Sound, every grant below the bump pointer) is "
         "inductive for AllocateScan.DNext with Cap \\in Nat and unbounded sizes / positions / alignment, <= 3 "
         "reservations and requests; IndInv => Sound")
+    # beyond the property: what becomes of the allocator's output - sdram_alloc_for_vertices, build_application_map,
+    # build_routing_tables - judged against Glue.tla
+    from . import glue
+    glue.run_beyond(chk)
 
 
 def selftest(chk):
